@@ -191,7 +191,7 @@ func mutateRpm(r *hx.Rand, v rpmVer) rpmVer {
 			i := r.Intn(len(*part))
 			switch (*part)[i].kind {
 			case 'n':
-				(*part)[i] = rpmAtom{'n', bumpDigits(r, (*part)[i].s)}
+				(*part)[i] = rpmAtom{'n', bumpDigits(r, (*part)[i].s, genDigits)}
 			case 'a':
 				(*part)[i] = rpmAtom{'a', (*part)[i].s + string(rune('a'+r.Intn(26)))}
 			default:
@@ -203,7 +203,7 @@ func mutateRpm(r *hx.Rand, v rpmVer) rpmVer {
 }
 
 // bumpDigits changes a canonical digit string a little: +1, -1, ×10, or a new one.
-func bumpDigits(r *hx.Rand, s string) string {
+func bumpDigits(r *hx.Rand, s string, fresh func(*hx.Rand) string) string {
 	switch r.Intn(4) {
 	case 0: // +1
 		b := []byte(s)
@@ -230,7 +230,7 @@ func bumpDigits(r *hx.Rand, s string) string {
 		}
 		return "0"
 	}
-	return genDigits(r)
+	return fresh(r)
 }
 
 var rpmSeps = []string{".", ".", ".", "_", "+", "..", "._"}
